@@ -98,6 +98,8 @@ def run(ctx):
     P, cg = ctx.prog, ctx.cg
     init_results_checked(ctx, "C04")
     kmsg_record_complete(ctx, "C04")
+    # the configured dry argument reaches the plugin at all
+    json_nonscalar_arg_rejected(ctx, "C04")
     roots = [f for f in P.fns.values() if f.name == "run" and (
         f.pq == "Oomd::BaseKillPlugin::run" or f.pq.startswith("Oomd::SystemdRestart") or
         re.match(r"Oomd::Kill\w+::run$", f.pq))]
